@@ -22,5 +22,5 @@ func main() {
 		return
 	}
 	hx.Main(map[string]hx.Area{"api": &apiArea{}, "wf": wfArea{}, "trace": traceArea{}, "names": namesArea{},
-		"race": raceArea{}, "compound": compoundArea{}, "paths": pathsArea{}, "dest": destArea{}, "collide": collideArea{}})
+		"race": raceArea{}, "compound": compoundArea{}, "paths": pathsArea{}, "dest": destArea{}, "collide": collideArea{}, "hist": histArea{}, "multi": multiArea{}, "duo": &duoArea{}})
 }
